@@ -79,6 +79,14 @@ def _requests(ttb, o, rs):
     A("T.ttt(one-singleton-mode-against-two)", "T", lambda: ttb.tensor(np.ones((1, 4))).ttt(ttb.tensor(np.ones((1, 1, 3))), np.array([0]), np.array([0, 1])))
     A("T.ttt(no-mode-against-a-singleton)", "T", lambda: ttb.tensor(np.ones((2, 3))).ttt(ttb.tensor(np.ones((1, 4))), None, 0))
     A("T.ttt(sizes-differ-singleton-vs-larger)", "T", lambda: ttb.tensor(np.ones((1, 3))).ttt(ttb.tensor(np.ones((2, 4))), 0, 0))
+    # matricized tensors combine entry by entry only when they have the same matrix shape (same tensor shape is not enough)
+    allm = np.arange(N)
+    V1 = ttb.tensor(np.arange(1.0, 4.0))
+    for opn, op in (("add", lambda x, y: x + y), ("sub", lambda x, y: x - y)):
+        A(f"tenmat.{opn}(all-modes-in-rows vs all-in-columns)", "T", lambda op=op: op(T.to_tenmat(rdims=allm), T.to_tenmat(cdims=allm)))
+        A(f"tenmat.{opn}(order-1: column vs row)", "T", lambda op=op: op(V1.to_tenmat(rdims=np.array([0])), V1.to_tenmat(cdims=np.array([0]))))
+        A(f"tenmat.{opn}(different-splits)", "T", lambda op=op: op(T.to_tenmat(rdims=np.array([0])), T.to_tenmat(rdims=np.array([1]))))
+        A(f"tenmat.{opn}(singleton-mode-on-opposite-sides)", "T", lambda op=op: op(ttb.tensor(np.ones((1, 3))).to_tenmat(rdims=np.array([0])), ttb.tensor(np.ones((1, 3))).to_tenmat(rdims=np.array([1]))))
     A("T.to_tenmat(no-dims)", "T", lambda: T.to_tenmat())
     A("T.to_tenmat(repeated-mode)", "T", lambda: T.to_tenmat(np.array([0, 0]), np.array([1, 2])))
     A("T.to_tenmat(missing-mode)", "T", lambda: T.to_tenmat(np.array([0]), np.array([1])))
@@ -293,6 +301,29 @@ class _:
             B = self._run(ttb, alg, dense, init(), 1, quiet=False)
             if not _relclose(_dense_of(ttb, A), _dense_of(ttb, B), 1e-10):
                 raise Fail(f"printing:{alg}", f"{case}")
+            # every printing interval, and everything that is reported next to the model (objective, fit, iteration counts)
+            if alg in ("cp_als", "tucker_als") or alg.startswith("cp_apr"):
+                def full_run(p):
+                    np.random.seed(1)
+                    if alg == "cp_als":
+                        return ttb.cp_als(dense, 2, init=init(), maxiters=4, printitn=p, stoptol=1e-14)
+                    if alg == "tucker_als":
+                        return ttb.tucker_als(dense, 2, init=[u.copy() for u in U0], maxiters=4, printitn=p, stoptol=1e-14)
+                    return ttb.cp_apr(dense, 2, init=init(), algorithm=alg.split("_")[-1], maxiters=4, maxinneriters=4, printitn=p, printinneritn=0, stoptol=1e-10)
+                ref = full_run(0)
+                for p in (1, 2, 3, 7):
+                    got = full_run(p)
+                    if not _relclose(_dense_of(ttb, got[0]), _dense_of(ttb, ref[0]), 1e-10):
+                        raise Fail(f"printing:{alg}:interval", f"{case} printitn={p}")
+                    oa, ob = ref[-1], got[-1]
+                    if isinstance(oa, dict) and isinstance(ob, dict):
+                        for key in oa:
+                            va, vb = oa[key], ob.get(key)
+                            if key in ("params", "time", "main_time", "times", "totalTime", "timeTrace") or "time" in key.lower():
+                                continue
+                            if isinstance(va, (int, float, np.integer, np.floating)) and isinstance(vb, (int, float, np.integer, np.floating)):
+                                if not (abs(float(va) - float(vb)) <= 1e-9 * max(1.0, abs(float(va))) or (np.isnan(va) and np.isnan(vb))):
+                                    raise Fail(f"printing:{alg}:reported-{key}", f"{case} printitn={p}: {va} vs {vb}")
         elif var == "seed":
             if alg == "hosvd":
                 return
